@@ -124,7 +124,7 @@ def classify(case, by_seed):
             else:
                 mech = 'step_number_decoded_wrong'
             found.setdefault(mech, (seed, f'step {i}: expected {exp_applied[i:i + 3]} got {r["applied"][i:i + 3]} '
-                                          f'(letters {case.get("letters_hint", "")})'))
+                                          ''))
         if r['labels'] != exp_labels:
             listed_got = {k: v for k, v in r['labels'].items() if int(k) > m}
             listed_exp = {k: v for k, v in exp_labels.items() if int(k) > m}
